@@ -6,9 +6,14 @@ each theorem below is re-proved against what the source says now; `Spec.U3V.*` i
 transcription of the GenCP / USB3 Vision tables.  All statements quantify over every
 memory image, base address, capability word, argument and device state; the build profile
 does not occur because the (fixed) code has no profile-dependent arithmetic left.
+Sections 13, 15, 17 quantify over an ARBITRARY `DeviceControl` (`ADev`: any state machine, any
+error values); section 14 has one statement per pure method of the value structs, over all
+words; section 16 decodes the fields of any 64-byte manifest entry.
 -/
 import CamVerif.Proofs.C13
 import CamVerif.Proofs.C13More
+import CamVerif.Proofs.C13Pure
+import CamVerif.Proofs.C13Struct
 namespace CamVerif.C13
 open CamVerif CamVerif.RegMap
 
@@ -1475,6 +1480,421 @@ example :
     let rr : RRow := ⟨"Sirm.maximum_trailer_size", .sirm, .get, 0x2C, 4, .u32, none⟩
     rr.runG A 0x1000 0 .none 0 = (.ok (.nat 0x1234), 1) ∧
     rr.runG A 0x1000 0 .none 2 = (.err (.dev 3), 3) := by
+  decide
+
+/-! ## 14. Pure methods of the value structs, one statement per method (growth round 2)
+
+`bitTest`, `cfgOp`, `fileTypeOf`, `compressionOf`, `schemaOf` (Model/RegMap.lean) are the
+functions the driver prints per method and the harness compares per method with the real
+`is_…` / `set_multi_event_enable_bit` / `disable_multi_event` / `file_type` /
+`compression_type` / `schema_version`.  All statements quantify over ALL words. -/
+
+/-- **bit_test_reads_its_bit**: every bit test the standards' tables list — the five
+`DeviceCapability::is_…`, the three `U3VCapablitiy::is_…` and
+`DeviceConfiguration::is_multi_event_enabled` — returns, for EVERY word, exactly the bit the
+standard assigns to it. -/
+theorem bit_test_reads_its_bit (st pred : String) (bit : Nat)
+    (h : (st, pred, bit) ∈ Spec.U3V.capBits ++ Spec.U3V.cfgBits) (raw : Nat) :
+    bitTest st pred raw = some (raw.testBit bit) :=
+  bitTest_spec st pred bit h raw
+
+/-- the same, spelled out per method -/
+theorem bit_tests_per_method (raw : Nat) :
+    bitTest "DeviceCapability" "is_user_defined_name_supported" raw = some (raw.testBit 0) ∧
+    bitTest "DeviceCapability" "is_family_name_supported" raw = some (raw.testBit 8) ∧
+    bitTest "DeviceCapability" "is_multi_event_supported" raw = some (raw.testBit 12) ∧
+    bitTest "DeviceCapability" "is_stacked_commands_supported" raw = some (raw.testBit 13) ∧
+    bitTest "DeviceCapability" "is_device_software_interface_version_supported" raw = some (raw.testBit 14) ∧
+    bitTest "U3VCapablitiy" "is_sirm_available" raw = some (raw.testBit 0) ∧
+    bitTest "U3VCapablitiy" "is_eirm_available" raw = some (raw.testBit 1) ∧
+    bitTest "U3VCapablitiy" "is_iidc2_available" raw = some (raw.testBit 2) ∧
+    bitTest "DeviceConfiguration" "is_multi_event_enabled" raw = some (raw.testBit 1) := by
+  refine ⟨?_, ?_, ?_, ?_, ?_, ?_, ?_, ?_, ?_⟩ <;> exact bitTest_spec _ _ _ (by decide) raw
+
+/-- **bit_test_reads_only_its_bit**: a bit test depends on no other bit of the word — flipping
+any other bit (inside or outside the 64-bit word) leaves the answer unchanged, flipping the
+bit itself inverts it. -/
+theorem bit_test_reads_only_its_bit (st pred : String) (bit : Nat)
+    (h : (st, pred, bit) ∈ Spec.U3V.capBits ++ Spec.U3V.cfgBits) (raw : Nat) :
+    (∀ j, j ≠ bit → bitTest st pred (raw ^^^ 2 ^ j) = bitTest st pred raw) ∧
+    bitTest st pred (raw ^^^ 2 ^ bit) = (bitTest st pred raw).map (!·) := by
+  constructor
+  · intro j hj
+    rw [bitTest_spec st pred bit h, bitTest_spec st pred bit h, testBit_flip_other raw bit j hj]
+  · rw [bitTest_spec st pred bit h, bitTest_spec st pred bit h, testBit_flip_self]
+    rfl
+
+example : bitTest "DeviceCapability" "is_stacked_commands_supported" 0x2000 = some true ∧
+    bitTest "DeviceCapability" "is_stacked_commands_supported" 0xFFFFFFFFFFFFDFFF = some false := by
+  decide
+
+/-- **cfg_mutator_sets_exactly_its_bit**: `DeviceConfiguration::set_multi_event_enable_bit`
+(`set_bit`) and `disable_multi_event` (`unset_bit`), for EVERY 64-bit word: the result is
+again a 64-bit word whose bit `bit` (the standard's multi-event-enable bit) is set
+respectively cleared and whose every other bit is the input's. -/
+theorem cfg_mutator_sets_exactly_its_bit (m kind : String) (bit : Nat)
+    (h : (m, kind, bit) ∈ Spec.U3V.cfgOps) (raw : Nat) (hr : raw < 2 ^ 64) :
+    ∃ r, cfgOp m raw = some r ∧ r < 2 ^ 64 ∧
+      ∀ i, r.testBit i = if i = bit then Spec.U3V.opSets kind else raw.testBit i :=
+  cfgOp_spec m kind bit h raw hr
+
+/-- the same per method, with the standard's bit (Device Configuration bit 1) -/
+theorem cfg_mutators_per_method (raw : Nat) (hr : raw < 2 ^ 64) :
+    (∃ r, cfgOp "set_multi_event_enable_bit" raw = some r ∧ r < 2 ^ 64 ∧
+      ∀ i, r.testBit i = if i = 1 then true else raw.testBit i) ∧
+    (∃ r, cfgOp "disable_multi_event" raw = some r ∧ r < 2 ^ 64 ∧
+      ∀ i, r.testBit i = if i = 1 then false else raw.testBit i) :=
+  ⟨cfgOp_spec "set_multi_event_enable_bit" "set_bit" 1 (by decide) raw hr,
+   cfgOp_spec "disable_multi_event" "unset_bit" 1 (by decide) raw hr⟩
+
+/-- **cfg_mutator_then_test**: mutator, then `is_multi_event_enabled`: `true` after
+`set_multi_event_enable_bit`, `false` after `disable_multi_event`, for every 64-bit word; and
+every OTHER bit test of the word is unaffected by the mutator. -/
+theorem cfg_mutator_then_test (m kind : String) (bit : Nat)
+    (h : (m, kind, bit) ∈ Spec.U3V.cfgOps) (raw : Nat) (hr : raw < 2 ^ 64) :
+    ∃ r, cfgOp m raw = some r ∧
+      bitTest "DeviceConfiguration" "is_multi_event_enabled" r = some (Spec.U3V.opSets kind) ∧
+      ∀ i, i ≠ bit → r.testBit i = raw.testBit i := by
+  obtain ⟨r, h1, _, h3⟩ := cfgOp_spec m kind bit h raw hr
+  have hb : bit = 1 := by
+    simp only [Spec.U3V.cfgOps, List.mem_cons, Prod.mk.injEq, List.mem_nil_iff, or_false] at h
+    rcases h with ⟨_, _, hb⟩ | ⟨_, _, hb⟩ <;> exact hb
+  refine ⟨r, h1, ?_, fun i hi => by rw [h3 i, if_neg hi]⟩
+  rw [bitTest_spec "DeviceConfiguration" "is_multi_event_enabled" 1 (by decide), h3 1, hb]
+  simp
+
+example : cfgOp "set_multi_event_enable_bit" 0xF0 = some 0xF2 ∧
+    cfgOp "disable_multi_event" 0xFFFFFFFFFFFFFFFF = some 0xFFFFFFFFFFFFFFFD ∧
+    (cfgOp "disable_multi_event" 0xF2).bind (cfgOp "set_multi_event_enable_bit") = some 0xF2 := by
+  decide
+
+/-- **file_type_decodes**: `GenICamFileInfo::file_type`, for EVERY word: reads exactly bits 2:0;
+0 is the device XML, 1 the buffer XML, and exactly the reserved codes 2..7 are refused with
+`InvalidDevice` (`Spec.U3V.fileTypeStd`). -/
+theorem file_type_decodes (raw : Nat) : fileTypeOf raw = some (Spec.U3V.fileTypeStd raw) :=
+  fileTypeOf_spec raw
+
+/-- **compression_type_decodes**: `GenICamFileInfo::compression_type`, for EVERY word: reads
+exactly bits 15:10; 0 is uncompressed, 1 zip, exactly the codes 2..63 are refused. -/
+theorem compression_type_decodes (raw : Nat) :
+    compressionOf raw = some (Spec.U3V.compressionStd raw) :=
+  compressionOf_spec raw
+
+/-- **schema_version_decodes**: `GenICamFileInfo::schema_version`, for EVERY word: major = bits
+31:24, minor = bits 23:16 (patch 0), never an error. -/
+theorem schema_version_decodes (raw : Nat) : schemaOf raw = some (Spec.U3V.schemaStd raw) :=
+  schemaOf_spec raw
+
+/-- **file_info_refuses_exactly_undefined**: the two fallible methods succeed iff the code in
+their bit range is one the standard defines — stated arithmetically on the word. -/
+theorem file_info_refuses_exactly_undefined (raw : Nat) :
+    ((∃ v, fileTypeOf raw = some (.ok v)) ↔ raw % 8 ≤ 1) ∧
+    (fileTypeOf raw = some (.err .invalidDevice) ↔ 2 ≤ raw % 8) ∧
+    ((∃ v, compressionOf raw = some (.ok v)) ↔ raw / 1024 % 64 ≤ 1) ∧
+    (compressionOf raw = some (.err .invalidDevice) ↔ 2 ≤ raw / 1024 % 64) := by
+  rw [fileTypeOf_spec, compressionOf_spec]
+  simp only [Spec.U3V.fileTypeStd, Spec.U3V.compressionStd, Spec.U3V.bitsOf]
+  have e1 : raw / 2 ^ 0 % 2 ^ (2 + 1 - 0) = raw % 8 := by simp
+  have e2 : raw / 2 ^ 10 % 2 ^ (15 + 1 - 10) = raw / 1024 % 64 := by simp
+  rw [e1, e2]
+  generalize raw % 8 = x
+  generalize raw / 1024 % 64 = y
+  refine ⟨?_, ?_, ?_, ?_⟩
+  · match x with
+    | 0 => simp
+    | 1 => simp
+    | n + 2 => simp
+  · match x with
+    | 0 => simp
+    | 1 => simp
+    | n + 2 => simp
+  · match y with
+    | 0 => simp
+    | 1 => simp
+    | n + 2 => simp
+  · match y with
+    | 0 => simp
+    | 1 => simp
+    | n + 2 => simp
+
+/-- the bits outside a method's range do not influence it: words that agree on bits 2:0 have
+the same file type, on bits 15:10 the same compression type, on bits 31:16 the same schema -/
+theorem file_info_reads_only_its_bits (raw raw' : Nat) :
+    (raw % 8 = raw' % 8 → fileTypeOf raw = fileTypeOf raw') ∧
+    (raw / 1024 % 64 = raw' / 1024 % 64 → compressionOf raw = compressionOf raw') ∧
+    (raw / 65536 % 65536 = raw' / 65536 % 65536 → schemaOf raw = schemaOf raw') := by
+  refine ⟨?_, ?_, ?_⟩
+  · intro h
+    have e (r : Nat) : r / 2 ^ 0 % 2 ^ (2 + 1 - 0) = r % 8 := by simp
+    simp only [fileTypeOf_spec, Spec.U3V.fileTypeStd, Spec.U3V.bitsOf, e, h]
+  · intro h
+    have e (r : Nat) : r / 2 ^ 10 % 2 ^ (15 + 1 - 10) = r / 1024 % 64 := by simp
+    simp only [compressionOf_spec, Spec.U3V.compressionStd, Spec.U3V.bitsOf, e, h]
+  · intro h
+    have e1 (r : Nat) : r / 2 ^ 24 % 2 ^ (31 + 1 - 24) = r / 65536 % 65536 / 256 := by
+      simp only [show (2:Nat) ^ 24 = 16777216 from rfl, show (2:Nat) ^ (31 + 1 - 24) = 256 from rfl]
+      omega
+    have e2 (r : Nat) : r / 2 ^ 16 % 2 ^ (23 + 1 - 16) = r / 65536 % 65536 % 256 := by
+      simp only [show (2:Nat) ^ 16 = 65536 from rfl, show (2:Nat) ^ (23 + 1 - 16) = 256 from rfl]
+      omega
+    simp only [schemaOf_spec, Spec.U3V.schemaStd, Spec.U3V.bitsOf, e1, e2, h]
+
+/-- non-vacuity: schema 1.1, zip, device XML; a reserved file type; a reserved file format -/
+example : fileTypeOf 0x01010400 = some (.ok "DeviceXml") ∧
+    compressionOf 0x01010400 = some (.ok "Zip") ∧ schemaOf 0x01010400 = some (1, 1) ∧
+    fileTypeOf 0x00000005 = some (.err .invalidDevice) ∧
+    compressionOf 0x00000800 = some (.err .invalidDevice) ∧
+    fileTypeOf 0xFFFFFFF9 = some (.ok "BufferXml") := by
+  decide
+
+/-! ## 15. Structural accessors on ARBITRARY devices (growth round 2)
+
+`abrmNewG` … `tableEntriesG`, `runNamedG` (`Proofs/C13Struct.lean`) are `Abrm::new`,
+`Sbrm::new`, `Abrm::sbrm`, `Abrm::manifest_table`, `Sbrm::sirm`, `ManifestTable::entries` and
+the by-name dispatcher over ANY `DeviceControl` (`ADev σ ε`: any state machine, any error
+values, short or over-long reads).  The driver runs them on a scripted stateful device that
+the harness implements as a second `DeviceControl` for the real accessors (`accg` requests). -/
+
+/-- the layout constants of `Proofs/C13Struct.lean` are the ones of section 8 -/
+theorem layout_same : L0 = LS := rfl
+
+/-- **structural_accessors_are_model**: for EVERY accessor name (uniform rows and structural
+accessors alike), the accessor over an arbitrary device, run on the model's own logging
+memory device, returns exactly what `runNamed` — the function the differential harness
+compares with the real crate — returns, with the same final device. -/
+theorem structural_accessors_are_model (name : String) (base cap : Nat) (arg : Arg) (d : Dev) :
+    runNamedG concreteDev name base cap arg d =
+      (runNamed name base cap arg d).map fun out => (toG out.1, out.2) :=
+  runNamedG_concrete name base cap arg d
+
+/-- **abrm_new_any_device**: `Abrm::new` on an arbitrary device makes exactly one call, a read
+of (0x01C4, 8): the device's error comes back unchanged with the device in the state that call
+left; otherwise the capability word is the little-endian value of the buffer (zero-padded if
+the device delivered fewer than 8 bytes). -/
+theorem abrm_new_any_device {σ ε : Type} (A : ADev σ ε) (st : σ) :
+    abrmNewG A L0 st =
+      match A.read st 0x01C4 8 with
+      | (.ok bs, st') => (.ok (.abrm (fromLE (fill 8 bs))), st')
+      | (.error e, st') => (.err (.dev e), st') :=
+  abrmNewG_spec A st
+
+/-- **sbrm_new_any_device**: `Sbrm::new(base)`: `InvalidDevice` with NO device call if
+`base + 4` is not a 64-bit address; otherwise exactly one read of (base + 4, 8), error
+unchanged / capability word = the value read. -/
+theorem sbrm_new_any_device {σ ε : Type} (A : ADev σ ε) (base : Nat) (st : σ) :
+    sbrmNewG A L0 base st =
+      if 2 ^ 64 ≤ base + 4 then (.err .invalidDevice, st)
+      else match A.read st (base + 4) 8 with
+        | (.ok bs, st') => (.ok (.sbrm base (fromLE (fill 8 bs))), st')
+        | (.error e, st') => (.err (.dev e), st') :=
+  sbrmNewG_spec A base st
+
+/-- **abrm_sbrm_any_device**: `Abrm::sbrm` navigates on an arbitrary device: one read of the
+SBRM address register (0x01D8, 8); its error is returned unchanged and NO further call is made;
+otherwise the value `a` it returned — exactly that value — is the base `Sbrm::new` is run with,
+on the device state the first read left (so the second read is at `a + 4`,
+`sbrm_new_any_device`). -/
+theorem abrm_sbrm_any_device {σ ε : Type} (A : ADev σ ε) (cap : Nat) (st : σ) :
+    abrmSbrmG A L0 cap st =
+      match A.read st 0x01D8 8 with
+      | (.ok bs, st') => sbrmNewG A L0 (fromLE (fill 8 bs)) st'
+      | (.error e, st') => (.err (.dev e), st') :=
+  abrmSbrmG_spec A cap st
+
+/-- **abrm_manifest_table_any_device**: `Abrm::manifest_table`: one read of (0x01D0, 8); the
+table's address is exactly the value read. -/
+theorem abrm_manifest_table_any_device {σ ε : Type} (A : ADev σ ε) (cap : Nat) (st : σ) :
+    abrmManifestTableG A L0 cap st =
+      match A.read st 0x01D0 8 with
+      | (.ok bs, st') => (.ok (.table (fromLE (fill 8 bs))), st')
+      | (.error e, st') => (.err (.dev e), st') :=
+  abrmManifestTableG_spec A cap st
+
+/-- **sbrm_sirm_any_device**: `Sbrm::sirm`: `None` with no device call when U3VCP capability
+bit 0 is clear; `InvalidDevice` with no call when `base + 0x20` is not an address; otherwise
+one read of (base + 0x20, 8), error unchanged / `Sirm` at exactly the value read. -/
+theorem sbrm_sirm_any_device {σ ε : Type} (A : ADev σ ε) (base cap : Nat) (st : σ) :
+    sbrmSirmG A L0 base cap st =
+      if cap.testBit 0 = false then (.ok .none, st)
+      else if 2 ^ 64 ≤ base + 0x20 then (.err .invalidDevice, st)
+      else match A.read st (base + 0x20) 8 with
+        | (.ok bs, st') => (.ok (.some (.sirm (fromLE (fill 8 bs)))), st')
+        | (.error e, st') => (.err (.dev e), st') :=
+  sbrmSirmG_spec A base cap st
+
+/-- **entries_any_device**: `ManifestTable::entries` on an arbitrary device: one read of the
+entry count (base, 8); error unchanged; otherwise `n` = the value read, and the iterator has
+`n` entries from `base + 8` with stride 64 (`entry_addresses`) iff the table ends at or below
+2^64, `InvalidDevice` otherwise. -/
+theorem entries_any_device {σ ε : Type} (A : ADev σ ε) (base : Nat) (hb : base < 2 ^ 64) (st : σ) :
+    tableEntriesG A base st =
+      match A.read st base 8 with
+      | (.ok bs, st') =>
+        (if base + 8 + 64 * fromLE (fill 8 bs) ≤ 2 ^ 64
+           then .ok (.entries (fromLE (fill 8 bs)) (base + 8)) else .err .invalidDevice, st')
+      | (.error e, st') => (.err (.dev e), st') :=
+  tableEntriesG_spec A base hb st
+
+/-- non-vacuity: a device whose answers depend on its history (state = number of calls; every
+read returns the call number as a SHORT one-byte read; the 2nd call fails with its number):
+`Abrm::sbrm` from state 0 reads SBRM address 1 then fails at the capability read with the
+device's own error 2; from state 2 it builds `Sbrm { addr 3, capability 4 }` in two calls. -/
+example :
+    let A : ADev Nat Nat :=
+      { read := fun n _ _ => if n + 1 = 2 then (.error 2, n + 1) else (.ok [UInt8.ofNat (n + 1)], n + 1),
+        write := fun n _ _ => (.ok (), n + 1) }
+    abrmSbrmG A L0 0 0 = (.err (.dev 2), 2) ∧ abrmSbrmG A L0 0 2 = (.ok (.sbrm 3 4), 4) ∧
+    tableEntriesG A 0x1000 4 = (.ok (.entries 5 0x1008), 5) := by
+  decide
+
+/-! ## 16. The fields of an arbitrary manifest entry (growth round 2) -/
+
+/-- bytes `[off, off + len)` of a block -/
+def field (e : Bytes) (off len : Nat) : Bytes := (e.drop off).take len
+
+/-- **manifest_entry_fields**: let `e` be ANY 64 bytes lying at an entry address `a` inside the
+address space of an accepting device (every memory, every `a` with `a + 64 ≤ 2^64`).  The five
+`ManifestEntry` accessors decode exactly the standard's fields OF THOSE 64 BYTES: file version
+= bytes 0..4 (major 31:24, minor 23:16, subminor 15:0), file info word = bytes 4..8, file
+(register) address = the LE u64 of bytes 8..16, file size = the LE u64 of bytes 16..24, SHA-1 =
+bytes 24..44 — `None` iff all twenty are zero, otherwise exactly those bytes.  Nothing of
+bytes 44..64 (reserved) or outside the entry is used. -/
+theorem manifest_entry_fields (mem : Nat → UInt8) (a cap : Nat) (ha : a + 64 ≤ 2 ^ 64) :
+    let e := readBytes mem a 64
+    let out := fun name => (runNamed name a cap .none (fresh mem)).map (·.1)
+    out "ManifestEntry.genicam_file_version" =
+      some (Spec.U3V.decode Spec.U3V.fileVersion (field e 0 4)) ∧
+    out "ManifestEntry.file_info" = some (.ok (.fileInfo (fromLE (field e 4 4)))) ∧
+    out "ManifestEntry.file_address" = some (.ok (.nat (fromLE (field e 8 8)))) ∧
+    out "ManifestEntry.file_size" = some (.ok (.nat (fromLE (field e 16 8)))) ∧
+    out "ManifestEntry.sha1_hash" =
+      some (.ok (if (field e 24 20).all (· == 0) then .none else .some (.hash (field e 24 20)))) := by
+  obtain ⟨r1, r2, r3, r4, r5⟩ := entry_rows
+  have hf : fresh mem = freshDev mem := rfl
+  simp only [field, readBytes_slice mem a 64 _ _ (by decide : 0 + 4 ≤ 64),
+    readBytes_slice mem a 64 _ _ (by decide : 4 + 4 ≤ 64),
+    readBytes_slice mem a 64 _ _ (by decide : 8 + 8 ≤ 64),
+    readBytes_slice mem a 64 _ _ (by decide : 16 + 8 ≤ 64),
+    readBytes_slice mem a 64 _ _ (by decide : 24 + 20 ≤ 64)]
+  refine ⟨?_, ?_, ?_, ?_, ?_⟩
+  · simp only [runNamed, r1, argOk, if_true, Option.map_some, hf,
+      entry_get _ 0 4 _ mem a cap (by omega) (by decide)]
+    rw [parse_eq_decode _ _ (by simp [Spec.U3V.widthOf]) (by decide)]
+    rfl
+  · simp only [runNamed, r2, argOk, if_true, Option.map_some, hf,
+      entry_get _ 4 4 _ mem a cap (by omega) (by decide)]
+    simp [parse, parseNum_ok 4 _ (readBytes_length _ _ _), R.map]
+  · simp only [runNamed, r3, argOk, if_true, Option.map_some, hf,
+      entry_get _ 8 8 _ mem a cap (by omega) (by decide)]
+    simp [parse, parseNum_ok 8 _ (readBytes_length _ _ _), R.map]
+  · simp only [runNamed, r4, argOk, if_true, Option.map_some, hf,
+      entry_get _ 16 8 _ mem a cap (by omega) (by decide)]
+    simp [parse, parseNum_ok 8 _ (readBytes_length _ _ _), R.map]
+  · simp only [runNamed, r5, argOk, if_true, Option.map_some, hf,
+      entry_get _ 24 20 _ mem a cap (by omega) (by decide)]
+    simp [parse]
+
+/-- non-vacuity: the last entry of the address space, file address 0x10000 and a hash whose
+only non-zero byte is its last one -/
+example :
+    let mem : Nat → UInt8 := fun x =>
+      if x = 2 ^ 64 - 64 + 10 then 1 else if x = 2 ^ 64 - 64 + 43 then 7 else 0
+    (runNamed "ManifestEntry.file_address" (2 ^ 64 - 64) 0 .none (fresh mem)).map (·.1)
+      = some (.ok (.nat 0x10000)) ∧
+    (runNamed "ManifestEntry.sha1_hash" (2 ^ 64 - 64) 0 .none (fresh mem)).map (·.1)
+      = some (.ok (.some (.hash (List.replicate 19 0 ++ [7])))) := by
+  decide
+
+/-! ## 17. When an arbitrary device is NOT called (growth round 2) -/
+
+/-- **device_untouched**: for every accessor row of the source and an ARBITRARY device, the
+three situations in which the accessor must not touch the device at all — the state is
+returned exactly as it was, so no call was made, whatever the device is:
+(1) capability bit clear: `Ok(None)` for a getter, `Ok(())` for a setter;
+(2) `base + offset` not a 64-bit address: `InvalidDevice`;
+(3) the name setter given a name that is non-ASCII, contains NUL or is longer than the
+register: `InvalidData`.
+Together with `device_error_returned_unchanged`, `device_read_decoded` and
+`device_write_accepted` (exactly one call, its outcome passed through) this covers every path
+of the uniform accessor body on any device. -/
+theorem device_untouched (r : Row) (hr : r ∈ Gen.RegMap.accessors) :
+    ∃ rr, resolve r = some rr ∧ IsSpecRow rr ∧
+      ∀ {σ ε : Type} (A : ADev σ ε) (base cap : Nat) (arg : Arg) (st : σ),
+        (guardOpen rr cap = false →
+          rr.runG A base cap arg st = (.ok (if rr.kind = .get then .none else .unit), st)) ∧
+        (guardOpen rr cap = true → rr.base ≠ .abrm → 2 ^ 64 ≤ base + rr.off →
+          rr.runG A base cap arg st = (.err .invalidDevice, st)) ∧
+        (guardOpen rr cap = true → rr.kind = .set → rr.dec = .string →
+          (rr.base = .abrm ∨ base + rr.off < 2 ^ 64) →
+          ∀ s : Bytes, (s.all (· < 128) = false ∨ s.contains 0 = true ∨ s.length > rr.len) →
+            rr.runG A base cap (.str s) st = (.err .invalidData, st)) := by
+  obtain ⟨rr, f⟩ := row_facts r hr
+  obtain ⟨a, ha, _, har⟩ := f.spec
+  refine ⟨rr, f.resolved, ⟨a, ha, har⟩, ?_⟩
+  intro σ ε A base cap arg st
+  exact ⟨fun hg => runG_guard_closed A rr base cap arg st hg,
+    fun hg hb ho => runG_unaddressable A rr base cap arg st hg hb ho,
+    fun hg hk hd haddr s hbad => runG_name_refused A rr base cap s st hk hd hg haddr hbad⟩
+
+/-- non-vacuity: a device that would fail every call is never asked — closed guard, register
+beyond the address space, a 65-byte name; the state (call counter) stays 0 -/
+example :
+    let A : ADev Nat Nat :=
+      { read := fun n _ _ => (.error 1, n + 1), write := fun n _ _ => (.error 1, n + 1) }
+    (⟨"Abrm.family_name", .abrm, .get, 0x84, 64, .string, some 8⟩ : RRow).runG A 0 0 .none 0
+      = (.ok .none, 0) ∧
+    (⟨"Sirm.maximum_trailer_size", .sirm, .get, 0x2C, 4, .u32, none⟩ : RRow).runG A (2 ^ 64 - 0x2C) 0 .none 0
+      = (.err .invalidDevice, 0) ∧
+    (⟨"Abrm.set_user_defined_name", .abrm, .set, 0x184, 64, .string, some 0⟩ : RRow).runG A 0 1
+        (.str (List.replicate 65 0x41)) 0 = (.err .invalidData, 0) := by
+  decide
+
+/-- **manifest_entry_walk_any_device**: `manifest_entry_walk` on an ARBITRARY device: inside a
+table `entries` accepted (`tb + 8 + 64 n ≤ 2^64`, possibly ending exactly at 2^64) every
+accessor of every entry `i < n` makes exactly one call, the read of the standard's register
+at `tb + 8 + 64 i + offset` — never an address-overflow error — and returns the device's
+error unchanged or the standard's decoding of the (possibly short, zero-padded) buffer. -/
+theorem manifest_entry_walk_any_device (r : Row) (hr : r ∈ Gen.RegMap.accessors)
+    (hb : r.base = .manifestEntry) :
+    ∃ rr, resolve r = some rr ∧ IsSpecRow rr ∧
+      ∀ {σ ε : Type} (A : ADev σ ε) (tb n i cap : Nat) (st : σ),
+        tb + 8 + 64 * n ≤ 2 ^ 64 → i < n →
+        rr.runG A (entryAddr (tb + 8) i) cap .none st =
+          match A.read st (tb + 8 + 64 * i + rr.off) rr.len with
+          | (.ok bs, st') => (liftR (Spec.U3V.decode rr.dec (fill rr.len bs)), st')
+          | (.error e, st') => (.err (.dev e), st') := by
+  have h := List.all_eq_true.mp entry_rows_ok r hr
+  obtain ⟨rr, f⟩ := row_facts r hr
+  simp only [hb, f.resolved, bne_self_eq_false, Bool.false_or, Bool.and_eq_true, beq_iff_eq,
+    Spec.U3V.MANIFEST_ENTRY_SIZE] at h
+  obtain ⟨⟨⟨hbase, hgb⟩, hkind⟩, hsz0⟩ := h
+  have hsz : rr.off + rr.len ≤ 64 := of_decide_eq_true hsz0
+  obtain ⟨a, ha, _, har⟩ := f.spec
+  refine ⟨rr, f.resolved, ⟨a, ha, har⟩, ?_⟩
+  intro σ ε A tb n i cap st hfit hi
+  have hpos : 0 < rr.len := by rw [f.len]; exact widthOf_pos rr.dec
+  have he : entryAddr (tb + 8) i + rr.off = tb + 8 + 64 * i + rr.off := by
+    simp only [entryAddr]; omega
+  have hlt : entryAddr (tb + 8) i + rr.off < 2 ^ 64 := by rw [he]; omega
+  have hao : addrOf rr.base (entryAddr (tb + 8) i) rr.off = .ok (tb + 8 + 64 * i + rr.off) := by
+    rw [hbase, ← he]
+    simp only [addrOf, registerAddress, hlt, if_true]
+  have hg : guardOpen rr cap = true := by simp [guardOpen, hgb]
+  cases hrd : A.read st (tb + 8 + 64 * i + rr.off) rr.len with
+  | mk res st' =>
+    cases res with
+    | ok bs =>
+      rw [runG_get_ok A rr hkind _ cap .none st st' bs _ hg hao hrd,
+        parse_eq_decode _ _ (by simp [f.len]) f.wf]
+      simp [wrapG, hgb]
+    | error e => exact runG_get_dev_error A rr hkind _ cap .none st st' e _ hg hao hrd
+
+/-- non-vacuity: the last entry of a two-entry table ending exactly at 2^64 on a device that
+answers every read with the single byte 5 (a short read): file size 5, one call -/
+example :
+    let A : ADev Nat Nat := { read := fun n _ _ => (.ok [5], n + 1), write := fun n _ _ => (.ok (), n + 1) }
+    (⟨"ManifestEntry.file_size", .manifestEntry, .get, 0x10, 8, .u64, none⟩ : RRow).runG A
+      (entryAddr ((2 ^ 64 - 136) + 8) 1) 0 .none 0 = (.ok (.nat 5), 1) := by
   decide
 
 end CamVerif.C13
